@@ -3,6 +3,7 @@ C11 — Block handler survives hostile traffic: no panic, bounded buffers, clean
 errors.  Model: Model/Block.lean, in which every `expect`, division, `chunks`,
 shift, slice and conversion of the Rust code is an explicit failure point.
 -/
+import CoapLite.Lemmas.Shape.Api
 import CoapLite.Lemmas.BlockTrace
 import CoapLite.Lemmas.Shape.Block
 import CoapLite.Lemmas.Shape.BlockValue
@@ -110,5 +111,13 @@ theorem state_shape_matches_source :
     Shapes.header = [("code", "MessageClass"), ("message_id", "u16"), ("ver_type_tkl", "u8")] ∧
     Shapes.headerRaw = [("code", "u8"), ("message_id", "u16"), ("ver_type_tkl", "u8")] :=
   ⟨ShapeTie.no_global_state, ShapeTie.blockHandler, ShapeTie.blockHandlerConfig, ShapeTie.requestCacheKey, ShapeTie.blockState, ShapeTie.blockValue, ShapeTie.coapRequest, ShapeTie.coapResponse, ShapeTie.packet, ShapeTie.header, ShapeTie.headerRaw⟩
+
+/-- the public entry points of the modelled source files – re-read from /repo/src on every run – are
+exactly the ones the model was written against (`Lemmas/Shape/Api.lean`): a new public way to change the
+state this property is about, or a receiver that became `&mut self`, breaks this theorem -/
+theorem api_surface_matches_source :
+    Shapes.apiBlockHandler = ShapeTie.expectedApiBlockHandler ∧
+    Shapes.apiBlockValue = ShapeTie.expectedApiBlockValue :=
+  ⟨ShapeTie.apiBlockHandler, ShapeTie.apiBlockValue⟩
 
 end CoapLite.C11
